@@ -312,8 +312,53 @@ def _rest(report, p, pr, info, reach, loader, c30, listers):
         okl = lab.get(f"{iv}.hash_string", "").endswith(": ") and lab.get(f"{iv}.action", "").endswith("(")
         r3.check(okl, F, c, "format / digest / action are not printed in the `format: digest (action)` layout", construct="entry line layout")
     rel = [n for n in walk_no_nested(F.node) if isinstance(n, ast.Assign) and isinstance(n.value, ast.Call) and "get_relative_file_path" in norm(n.value.func)]
-    okp = len(rel) == 1 and rec and norm(rec[0].value.args[0]) == norm(rel[0].targets[0]) and "os.path.abspath" in norm(rel[0].value)
-    r3.check(okp, F, rel[0] if rel else F.node, "the path looked up is not the named file's path relative to the history root", construct="looked-up path")
+    okp = len(rel) == 1 and bool(rec) and "os.path.abspath" in norm(rel[0].value)
+    # nearest enclosing history: the root-relative path is ROUTED (find_history_for_path), the generations listed are those of the history the routing
+    # names and the record is looked up under the path relative to that history (a file of a nested history has no record in the root history)
+    if okp:
+        look_o = [x for o_ in pr.origins(rec[0].value.args[0], F) for x in alts(o_)]
+        gens_o = [x for o_ in pr.origins(o.iter, F) for x in alts(o_)]
+
+        def _routed(t, comp):
+            if not (t[0] == "elem" and is_call(t[1], "find_history_for_path") and t[2] == ("const", comp)):
+                return False
+            a0 = t[1][2][0] if t[1][2] else None
+            return a0 is not None and all(is_call(x, "get_relative_file_path") for x in alts(a0))
+
+        okp = bool(look_o) and all(_routed(t, 1) for t in look_o) and bool(gens_o) and all(t[0] == "attr" and t[2] == "hash_lists" and _routed(t[1], 0) for t in gens_o)
+    r3.check(okp, F, rel[0] if rel else F.node, "the record is not looked up in the history that holds the named file (the routing of its root-relative path: nearest enclosing history, path relative to that history): for a file inside a nested history the listing is empty or taken from another history's records", construct="looked-up path")
+
+    # ------------------------------------------------------------------ R19.8
+    r8 = report.rule(
+        "R19.8",
+        "every named file is listed from ITS nearest enclosing history: where the dispatcher searches the history upward from a named file, it does so for each "
+        "file it hands to the lister (not for one element of the -sf tuple on behalf of all of them)",
+        1,
+    )
+    disp = need(commands(p), "info")
+    sfp = next((pn for pn in disp.params if "single" in pn or "file" in pn), None)
+    if sfp is None:
+        raise AnalysisError("info: -sf parameter not found")
+    r8.instance(disp, disp.node, f"info dispatcher, -sf parameter `{sfp}`")
+    fixed_elems = [n for n in walk_no_nested(disp.node) if isinstance(n, ast.Subscript) and isinstance(n.value, ast.Name) and n.value.id == sfp and isinstance(n.slice, ast.Constant) and isinstance(parent(n), ast.Call) and "abspath" in norm(parent(n).func)]
+    whole = [c for c, tg in p.calls[disp.qual] if F.qual in tg and any(isinstance(a, ast.Name) and a.id == sfp for a in list(c.args) + [k.value for k in c.keywords])]
+    for n in fixed_elems:
+        r8.check(not whole, disp, n, f"the history is searched upward from `{norm(n)}` only, then ALL files named with -sf are listed from that history: a file outside it (named after a file of a nested history, or in another tree) gets a header and no lines", construct="history searched for one -sf element only")
+    r8.check(True, None, None, "")
+
+    # ------------------------------------------------------------------ R19.9
+    r9 = report.rule(
+        "R19.9",
+        "one line per digest also where the listing follows a renamed file to its earlier name: the recursive listing of the previous name is not started from inside "
+        "the loop over the hash entries of a record (once per entry = the earlier generations' lines repeated for every format of the renaming generation)",
+        1,
+    )
+    rec_calls = [c for c, tg in p.calls[F.qual] if F.qual in tg]
+    r9.instance(F, F.node, f"{len(rec_calls)} recursive listing call(s)")
+    for c in rec_calls:
+        r9.instance(F, c, norm(c)[:70])
+        r9.check(not _inside(c, i), F, c, "the listing of the previous name is started inside the loop over the record's hash entries: with two hash formats in the renaming generation every line of the earlier generations is printed twice (info -v -sf)", construct="previous-name listing once per hash entry")
+    r9.check(True, None, None, "")
 
     # ------------------------------------------------------------------ R19.5
     r5 = report.rule(
